@@ -29,8 +29,11 @@ def run(ctx, prop):
     for f in fails:
         case = vlib.nth_line(rec, f["index"])
         for reason in f["reasons"]:
-            facts = {"reason": reason, "lang": case["lang"], "mode": case["mode"]}
-            if case["mode"] == "tpl":
+            facts = {"reason": reason, "lang": case.get("lang", "JavaScript"), "mode": case["mode"]}
+            if case["mode"] == "rewrite":
+                slim = {k: case.get(k) for k in ("id", "text", "order", "join", "cs", "ce", "cands")}
+                slim["out"] = bytes(case["out"]).decode("utf8", "replace")
+            elif case["mode"] == "tpl":
                 slim = {"id": case["id"], "lang": case["lang"], "pattern": case["pattern"], "template": "".join(case["raw"]),
                         "src": "".join(case["src"])[:1500], "site": case["site"], "bind": case["bind"], "out": "".join(case["out"])}
             else:
@@ -54,6 +57,14 @@ def run(ctx, prop):
                               {"id": recs[-1]["id"], "template": "".join(recs[-1]["raw"]), "out": "".join(recs[-1]["out"])[:300]}]
     else:
         nt = set()
+        rw = [x for x in recs if x["mode"] == "rewrite"]
+        recs = [x for x in recs if x["mode"] != "rewrite"]
+        ctx.cov["rewrite_records"] = len(rw)
+        ctx.cov["rewrite_records_with_overlapping_candidates"] = sum(
+            1 for x in rw if any(a["hits"] and b["hits"] and a["s"] <= b["s"] and b["e"] <= a["e"]
+                                 for i, a in enumerate(x["cands"]) for b in x["cands"][i + 1:]))
+        for x in rw:
+            nt.add(("rewrite", x["text"], tuple(x["order"]), x["join"]))
         for x in recs:
             if len(x["lib"]) >= 1:
                 nt.add((x["lang"], json.dumps(x["rule"].get("fix")), x["text"][:80], len(x["lib"]), len(x["cli"])))
@@ -66,7 +77,7 @@ def run(ctx, prop):
     ctx.cov["traces_validated_against_impl"] = n - len(bad)
     ctx.cov["evaluations"] = n
     ctx.cov["records"] = summ
-    ctx.cov["languages_covered"] = sorted(set(x["lang"] for x in recs))
+    ctx.cov["languages_covered"] = sorted(set(x.get("lang", "JavaScript") for x in recs))
     ctx.cov["exhaustive"] = True
     ctx.assumptions += [
         "texts are sequences of characters in the specification; the code works on UTF-8 bytes (the two coincide for the "
